@@ -37,6 +37,8 @@ mod postx;
 mod colrx;
 #[path = "c17/layoutx.rs"]
 mod layoutx;
+#[path = "c17/palx.rs"]
+mod palx;
 
 const F_NO_HINTING: u16 = 0x0001;
 const F_RETAIN_GIDS: u16 = 0x0002;
@@ -1606,7 +1608,7 @@ fn run_font(s: &mut Session, r: &mut Rng, label: String, data: &[u8], nreq: usiz
 }
 
 /// `C17_ONLY=<part>[,<part>…]` (development aid) restricts the run to the named parts:
-/// core locax cmap hvar gvar outline post colr layout.  Unset = everything (what `./check` does).
+/// core locax cmap hvar gvar outline post colr layout pal.  Unset = everything (what `./check` does).
 fn part_enabled(name: &str) -> bool {
     match std::env::var("C17_ONLY") {
         Ok(v) if !v.is_empty() => v.split(',').any(|p| p == name),
@@ -1653,6 +1655,7 @@ fn run(cfg: &Config, s: &mut Session) {
     part!("post", postx::run(cfg, s, &mut Rng::new(cfg.seed ^ 0x706F7374)));
     part!("colr", colrx::run(cfg, s, &mut Rng::new(cfg.seed ^ 0x434F4C52)));
     part!("layout", layoutx::run(cfg, s, &mut Rng::new(cfg.seed ^ 0x4C41594F)));
+    part!("pal", palx::run(cfg, s, &mut Rng::new(cfg.seed ^ 0x50414C58)));
     let _ = mark;
 }
 
